@@ -13,6 +13,7 @@ from .util import Rng
 FACTOR_ROOTS = ["ConjugateFactor", "OneRankFactor", "LinearFactor", "ConstantFactor"]
 MEASURE_ROOTS = ["GaussianMeasure", "GaussianDiagMeasure"]
 PDF_ROOTS = ["GaussianPDF", "GaussianDiagPDF"]
+APPROX_ROOTS = list(model.APPROX)
 COND_ROOTS = ["ConditionalGaussianPDF", "ConditionalGaussianDiagPDF", "ConditionalIdentityGaussianPDF", "ConditionalIdentityDiagGaussianPDF"]
 
 INTEGRATE_KEYS = [
@@ -77,6 +78,10 @@ def swarm(seed, tier, profile="general"):
                 roots.append(c)
     if not any(c in roots for c in MEASURE_ROOTS + PDF_ROOTS):
         roots.append(r.choice(MEASURE_ROOTS + PDF_ROOTS))
+    if profile == "general":
+        for c in APPROX_ROOTS:
+            if r.coin(0.2):
+                roots.append(c)
     if profile == "product":
         roots = [c for c in FACTOR_ROOTS + MEASURE_ROOTS + PDF_ROOTS if r.coin(0.75)]
         if not any(c in roots for c in MEASURE_ROOTS + PDF_ROOTS):
@@ -152,6 +157,8 @@ class Gen:
         R = R or r.integers(1, cfg["Rmax"])
         if D is None:
             D = r.choice(self.dims()) if r.coin(0.8) else r.integers(1, max(cfg["D"], 1))
+        if cls in model.APPROX:
+            R = 1
         if model.KIND[cls] == "cond" and cls not in IDENT:
             Dx = Dx or (r.choice(self.dims()) if r.coin(0.7) else r.integers(1, cfg["D"]))
             D = r.integers(1, max(cfg["D"], 1)) if D is None or r.coin(0.5) else D
@@ -165,7 +172,7 @@ class Gen:
         return {"op": "root", "cls": cls, "kw": kw, "variant": variant, "out": self.nid()}
 
     def g_slice(self):
-        s = self.pick(pred=lambda s: s.u is None)
+        s = self.pick(pred=lambda s: s.u is None and s.cls not in model.APPROX)
         if s is None:
             return None
         return {"op": "slice", "a": s.id, "idx": self.r.idx_array(s.R, maxlen=min(s.R + 1, 5)), "out": self.nid()}
@@ -248,7 +255,7 @@ class Gen:
         return {"op": "cond_x", "a": c.id, "x": self.r.normal((N, int(c.obj.Dx)), 1.5), "call": self.r.coin(0.3), "out": self.nid()}
 
     def g_set_y(self):
-        c = self.pick(("cond",))
+        c = self.pick(("cond",), lambda s: s.cls not in model.APPROX)
         if c is None:
             return None
         N = c.R if c.R > 1 else self.r.integers(1, self.cfg["Nmax"])
@@ -272,9 +279,10 @@ class Gen:
                 return None
             c = self.w.slots[root["out"]]
         Dx = int(c.obj.Dx)
-        p = self.pick(("pdf",), lambda s: s.D == Dx and (s.R == 1 or c.R == 1) and s.R * c.R <= self.cfg["Rcap"])
+        single = c.cls in model.HETERO  # heteroscedastic transformations: one prior component (model restriction)
+        p = self.pick(("pdf",), lambda s: s.D == Dx and (s.R == 1 or (c.R == 1 and not single)) and s.R * c.R <= self.cfg["Rcap"])
         if p is None:
-            R = r.integers(1, self.cfg["Rmax"]) if c.R == 1 else 1
+            R = r.integers(1, self.cfg["Rmax"]) if (c.R == 1 and not single) else 1
             root = self.g_root(r.choice(PDF_ROOTS), R=R, D=Dx)
             if not self.emit(root):
                 return None
@@ -300,7 +308,7 @@ class Gen:
         return {"op": "update", "a": a.id, "d": did, "idx": idx}
 
     def g_update_sigma(self):
-        c = self.pick(("cond",), lambda s: s.u is None)
+        c = self.pick(("cond",), lambda s: s.u is None and s.cls not in model.HETERO)
         if c is None:
             return None
         diag = "Diag" in c.cls
@@ -361,6 +369,10 @@ class Gen:
         elif s.kind == "pdf":
             name = r.wchoice(["evaluate_ln", "integrate", "integrate_log", "log_integral", "entropy", "kl", "attrs",
                               "is_normalized", "to_dict"], [3, 6, 1, 1, 1, 1.5, 2, 0.5, 0.5])
+        elif s.cls in model.HETERO:
+            name = r.wchoice(["get_conditional_mu", "integrate_log_conditional_y", "attrs"], [2, 1.5, 1])
+        elif s.cls in model.FEATURE:
+            name = r.wchoice(["get_conditional_mu", "integrate_log_conditional", "integrate_log_conditional_y", "attrs"], [2, 1, 1, 1])
         else:
             name = r.wchoice(["get_conditional_mu", "conditional_entropy", "mutual_information",
                               "integrate_log_conditional", "integrate_log_conditional_y", "attrs"], [2, 1, 1, 1.5, 1.5, 2 if s.u is None else 0])
@@ -414,7 +426,7 @@ class Gen:
                     return None
             rec["p"] = p.id
             rec["y"] = r.normal((p.R, int(s.obj.Dy)), 1.5)
-            rec["callable"] = r.coin(0.4)
+            rec["callable"] = r.coin(0.4) and s.cls not in model.HETERO
         return rec
 
     def g_sample(self):
